@@ -1,6 +1,7 @@
 // Specification vocabulary shared by all modules (DESIGN.md section 4).
 // Written from the gABI / GNU format texts and the property statements, not from the code.
 
+use vstd::string::StringSliceAdditionalSpecFns;
 #[verifier::external_type_specification]
 #[verifier::external_body]
 pub struct ExTryFromSliceError(core::array::TryFromSliceError);
@@ -74,7 +75,33 @@ pub assume_specification<'a, T, P: FnMut(&'a T) -> bool> [<core::slice::Iter<'a,
     };
 
 // ---- A7: core::str::from_utf8 (validity itself uninterpreted)
-pub assume_specification [core::str::from_utf8] (v: &[u8]) -> (r: Result<&str, core::str::Utf8Error>);
+pub assume_specification [core::str::from_utf8] (v: &[u8]) -> (r: Result<&str, core::str::Utf8Error>)
+    ensures r is Ok <==> vstd::utf8::valid_utf8(v@),
+            r is Ok ==> r->Ok_0.spec_bytes() == v@;
+
+// ---- NUL-terminated strings inside a byte table (C15): t is THE string at off iff it is the
+// NUL-free run d[off, off+|t|) and d[off+|t|] is a NUL inside the table.
+pub open spec fn is_strz(d: Seq<u8>, off: int, t: Seq<u8>) -> bool {
+    &&& 0 <= off && off + t.len() < d.len() && t == d.subrange(off, off + t.len()) && d[off + t.len()] == 0
+    &&& forall|k: int| 0 <= k < t.len() ==> t[k] != 0
+}
+pub open spec fn strz_ok(d: Seq<u8>, off: int) -> bool { 0 <= off < d.len() && exists|k: int| off <= k < d.len() && d[k] == 0 }
+pub open spec fn strz(d: Seq<u8>, off: int) -> Seq<u8> { choose|t: Seq<u8>| is_strz(d, off, t) }
+pub proof fn lemma_strz_unique(d: Seq<u8>, off: int, a: Seq<u8>, b: Seq<u8>)
+    requires is_strz(d, off, a), is_strz(d, off, b)
+    ensures a == b
+{
+    if a.len() < b.len() { assert(b[a.len() as int] == d[off + a.len()]); assert(false); }
+    if b.len() < a.len() { assert(a[b.len() as int] == d[off + b.len()]); assert(false); }
+    assert(a =~= b);
+}
+// the run is the LONGEST NUL-free run starting at off: it cannot be extended
+pub proof fn lemma_strz_is_longest(d: Seq<u8>, off: int, t: Seq<u8>, n: int)
+    requires is_strz(d, off, t), 0 <= n, off + n <= d.len(), forall|k: int| off <= k < off + n ==> d[k] != 0
+    ensures n <= t.len()
+{
+    if n > t.len() { assert(d[off + t.len()] != 0); }
+}
 
 // ---- A1: every slice has at most isize::MAX elements (language invariant)
 pub mod ax { use vstd::prelude::*;
